@@ -107,7 +107,7 @@ func (r *Run) SpawnBin(bin, role string, env []string, timeout time.Duration) Ch
 	cmd.Dir = dir
 	cmd.Stdout = lf
 	cmd.Stderr = lf
-	cmd.Env = append(os.Environ(), "VX_CHILD="+role, "VX_CHILD_OUT="+outPath, "VX_WORK="+dir, "GOTRACEBACK=all")
+	cmd.Env = append(os.Environ(), "VX_CHILD="+role, "VX_CHILD_OUT="+outPath, "VX_WORK="+dir, "TMPDIR="+dir, "GOTRACEBACK=all")
 	cmd.Env = append(cmd.Env, env...)
 	cmd.SysProcAttr = &syscall.SysProcAttr{Setpgid: true}
 	res := ChildResult{LogPath: logPath}
@@ -208,4 +208,69 @@ func (r *Run) KeepLog(res ChildResult, name string) string {
 	}
 	os.WriteFile(p, b, 0o644)
 	return p
+}
+
+// RunChildren partitions cases [0,n) over `children` child processes of the given role
+// (VX_RANGE=lo-hi). A child that dies is restarted after the case it died in; onCrash
+// decides what that crash means for the property (violation / inconclusive).
+// Case ids written with CaseStart must begin with prefix followed by the case number.
+func (r *Run) RunChildren(role string, n, children int, prefix string, perCase time.Duration, onCrash func(res ChildResult, k int, logPath string)) {
+	if children < 1 {
+		children = 1
+	}
+	per := (n + children - 1) / children
+	var wg sync.WaitGroup
+	for c := 0; c < children; c++ {
+		lo, hi := c*per, (c+1)*per
+		if hi > n {
+			hi = n
+		}
+		if lo >= hi {
+			continue
+		}
+		wg.Add(1)
+		go func(lo, hi int) {
+			defer wg.Done()
+			for lo < hi {
+				res := r.Spawn(role, []string{fmt.Sprintf("VX_RANGE=%d-%d", lo, hi)}, time.Duration(hi-lo)*perCase+2*time.Minute)
+				if !res.Crashed && !res.TimedOut {
+					return
+				}
+				if res.OpenCase == "" {
+					r.Inconclusive(role + " child ended abnormally outside a case: " + res.PanicText)
+					return
+				}
+				var k int
+				fmt.Sscanf(strings.TrimPrefix(res.OpenCase, prefix), "%d", &k)
+				logp := r.KeepLog(res, fmt.Sprintf("crash-%s%d.log", prefix, k))
+				if res.TimedOut && !res.Crashed {
+					r.Inconclusive(fmt.Sprintf("%s%d: child watchdog (log %s)", prefix, k, logp))
+				} else {
+					onCrash(res, k, logp)
+				}
+				lo = k + 1
+			}
+		}(lo, hi)
+	}
+	wg.Wait()
+}
+
+// ChildRange parses VX_RANGE.
+func ChildRange() (lo, hi int) {
+	fmt.Sscanf(os.Getenv("VX_RANGE"), "%d-%d", &lo, &hi)
+	return
+}
+
+var idRe = regexp.MustCompile(`\(id=[^)]*\)|torrent [A-Za-z0-9_-]{10,}|0x[0-9a-f]+|#\d+`)
+
+// NormalisePanic strips ids, addresses and numbers from a panic line so that it can serve as a signature.
+func NormalisePanic(s string) string {
+	s = idRe.ReplaceAllString(s, "*")
+	if i := strings.Index(s, " Saving goroutine stacks"); i > 0 {
+		s = s[:i]
+	}
+	if len(s) > 160 {
+		s = s[:160]
+	}
+	return s
 }
